@@ -734,7 +734,7 @@ def rule_lazy(ctx, classes=None):
 
 
 def rule_lazy_solvers(ctx):
-    n = rule_lazy(ctx, {"AdjEnvelope", "AdjCholDec", "AdjGSO", "AdjSVD", "SVD"})
+    n = rule_lazy(ctx, {"AdjEnvelope", "AdjCholDec", "AdjGSO", "AdjSVD", "SVD", "Homogenization"})
     ctx.floor(RULE, 60, n, "solver typestate obligations")
 
 
